@@ -20,8 +20,9 @@ KINDMAP = {"range_error": "K_range_error", "out_of_range": "K_out_of_range", "le
 HEADER = r'''
 /* exceptional postcondition: a throw is allowed exactly when the specification says so (ghosts
  * computed from the entry state by the @ghost lines of each contract) */
-#define VERIF_THROW_OK(kind) ((kind) == K_range_error ? verif_spec_range : (kind) == K_out_of_range ? verif_spec_oor : (kind) == K_length_error ? verif_spec_len : 0)
+#define VERIF_THROW_OK(kind) (!verif_noexcept && ((kind) == K_range_error ? verif_spec_range : (kind) == K_out_of_range ? verif_spec_oor : (kind) == K_length_error ? verif_spec_len : 0))
 _Bool verif_spec_range, verif_spec_oor, verif_spec_len;
+_Bool verif_noexcept; /* ghost: inside a callable declared noexcept an exception is std::terminate - a crash, never "raises an exception" */
 #include "verif_stl.h"
 int verif_thrown;
 /* verif_spec_range: spec: the call must raise std::range_error (emptiness / position precondition violated)
@@ -314,7 +315,13 @@ def build(prop, tier="quick"):
                 cparams, cont = convert_params(ptext, base)
                 csig = "%s %s(%s)" % (LAMBDA_RET[reg.name], base, cparams)
                 c = C(base, fallback="reg_default")
-                kb.emit_function(csig, sl, lambda_rules(cont), c.fn, c.loops, base, pre=with_throws(base), ghost=c.ghost)
+                tail = " ".join(rettext.split())
+                if tail and not re.fullmatch(r"(noexcept)?\s*(->\s*[\w:<>&\s\*()]+)?", tail):
+                    raise ExtractionBreak("%s: lambda declarator %r not in the rule set" % (base, tail))
+                is_noexcept = "noexcept" in tail
+                w = with_throws(base)
+                kb.emit_function(csig, sl, lambda_rules(cont), list(c.fn) + [["F", "__CPROVER_assigns(verif_noexcept)"]], c.loops, base,
+                                 pre=lambda b, w=w, ne=is_noexcept: "verif_noexcept = %d; /* the lambda is %sdeclared noexcept */" % (ne, "" if ne else "not ") + w(b), ghost=c.ghost)
                 harness(base, csig)
             elif reg.kind == "member":
                 cls, member = det
